@@ -651,3 +651,67 @@ Proof.
   { destruct (instr_regs_sound ops id' Hin') as [m' [Hm' Hid']]. eapply Hall; eassumption. }
   rewrite <- (name_rank_inj id' id Hr' Hr Hrk). exact Hin'.
 Qed.
+
+(* ------------------------------------------------------------ completeness of the whole check *)
+Definition qualifies (rs : list region) (op : memop) (x : Z) : Prop :=
+  x = 0 \/ exists mi, lookup_region rs x = Some mi /\ possibly_allowed op mi = true.
+Definition inaccessible (rs : list region) (op : memop) (a : Z) : Prop :=
+  forall mi, lookup_region rs a = Some mi -> possibly_allowed op mi = false.
+
+Lemma check_complete c address adj op ctx iregs rs a reg j :
+  c = CpuAmd64 \/ c = CpuOther64 -> adj <> AdjNullOffset ->
+  ((reg = None /\ a = match adj with AdjNonCanonical v => v | _ => address end) \/
+   (exists rid, reg = Some rid /\ In (rid, a) iregs /\ ctx <> None)) ->
+  inaccessible rs op a ->
+  br_lo (expected_br c adj) <= j < br_hi (expected_br c adj) ->
+  qualifies rs op (Z.lxor a (2 ^ j)) ->
+  exists f, In f (check_for_bitflips c address adj op ctx iregs rs) /\ f_addr f = Z.lxor a (2 ^ j) /\ f_reg f = reg.
+Proof.
+  intros Hc Hadj Hex Hin Hj Hq.
+  assert (Hgen : forall a0 br, br = expected_br c adj ->
+            a0 = match adj with AdjNonCanonical v => v | _ => address end ->
+            exists f, In f (try_bit_flips a0 None br ctx rs op ++
+                            match ctx with None => [] | Some _ => flat_map (fun rv => try_bit_flips (snd rv) (Some (fst rv)) br ctx rs op) iregs end) /\
+                      f_addr f = Z.lxor a (2 ^ j) /\ f_reg f = reg).
+  { intros a0 br -> ->. destruct Hex as [[-> ->]|[rid [-> [Hi Hctx]]]].
+    - destruct (try_bit_flips_complete _ None (expected_br c adj) ctx rs op j Hin Hj Hq) as [f [Hf Hfa]].
+      exists f. split; [apply in_or_app; left; exact Hf|exact Hfa].
+    - destruct (try_bit_flips_complete a (Some rid) (expected_br c adj) ctx rs op j Hin Hj Hq) as [f [Hf Hfa]].
+      exists f. split; [|exact Hfa]. apply in_or_app. right. destruct ctx as [cx|]; [|exfalso; apply Hctx; reflexivity].
+      apply in_flat_map. exists (rid, a). split; [exact Hi|exact Hf]. }
+  unfold check_for_bitflips.
+  destruct Hc as [-> | ->]; destruct adj as [|v|]; try (exfalso; apply Hadj; reflexivity);
+    (eapply Hgen; reflexivity).
+Qed.
+
+Lemma iregs_of_complete pc regs id v : In id regs -> get_register pc id = Some v -> In (id, v) (iregs_of pc regs).
+Proof.
+  intros Hin Hg. unfold iregs_of. apply in_flat_map. exists id. split; [exact Hin|]. rewrite Hg. left. reflexivity.
+Qed.
+
+Section PipelineComplete.
+  Variable analysis : pcontext -> option op_analysis.
+
+  (* every qualifying single-bit neighbour of every examined value IS reported *)
+  Lemma pipeline_complete c os r address pc rs a reg j :
+    pointer_width c = WBits64 -> c <> GArm64 ->
+    (forall off, pipeline_adj analysis c os r address pc <> GAdjNullPointerWithOffset off) ->
+    ((reg = None /\ a = match pipeline_adj analysis c os r address pc with GAdjNonCanonical v => v | _ => address end) \/
+     (exists id x oa, reg = Some id /\ pc = Some x /\ analysis x = Some oa /\ In id (oa_regs oa) /\ get_register x id = Some a)) ->
+    inaccessible rs (memop_of_reason r) a ->
+    br_lo (pipeline_br analysis c os r address pc) <= j < br_hi (pipeline_br analysis c os r address pc) ->
+    qualifies rs (memop_of_reason r) (Z.lxor a (2 ^ j)) ->
+    exists f, In f (pipeline analysis c os r address pc rs) /\ f_addr f = Z.lxor a (2 ^ j) /\ f_reg f = reg.
+  Proof.
+    intros Hw Hna Hnn Hex Hin Hj Hq. unfold pipeline. rewrite check_src_refines.
+    apply check_complete; try assumption.
+    - apply cpu_class_live; assumption.
+    - destruct (pipeline_adj analysis c os r address pc) as [|v|off] eqn:E; cbn; try discriminate.
+      exfalso. apply (Hnn off). reflexivity.
+    - destruct Hex as [[Hr Ha]|[id [x [oa [Hr [Hpc [Han [Hi Hg]]]]]]]].
+      + left. split; [exact Hr|]. rewrite Ha. destruct (pipeline_adj analysis c os r address pc); reflexivity.
+      + right. exists id. split; [exact Hr|]. subst pc. split.
+        * unfold pipeline_iregs, the_analysis. rewrite Han. apply iregs_of_complete; assumption.
+        * discriminate.
+  Qed.
+End PipelineComplete.
